@@ -1038,6 +1038,40 @@ func ruleR43(c *Ctx) {
 				})
 			}
 			c.Check(dec, f, loop, "cycle loop decrements its counter", "the repetition counter is decremented in the loop body", fmt.Sprintf("decrement found: %v", dec))
+			// re-arm from the delivered clock time: the timer clause assigns the received time to the
+			// variable from which the next due time is computed
+			rearm := false
+			var dueVars []types.Object
+			inspectNoLit(loop.Body, func(z ast.Node) bool {
+				if call, ok := z.(*ast.CallExpr); ok {
+					if fn := callee(in, call); fn != nil && fn.Name() == "Until" && len(call.Args) == 1 {
+						if rid := rootIdent(call.Args[0]); rid != nil {
+							dueVars = append(dueVars, objOf(in, rid))
+						}
+					}
+				}
+				return true
+			})
+			for _, si := range chanEngine(p).Selects {
+				if si.Func != f || !regionOf(loop.Body).Contains(si.Stmt) {
+					continue
+				}
+				for _, cl := range si.Clauses {
+					if cl.Op == nil || cl.Op.Kind != OpRecv || !isTimerChanType(cl.Op.Type) {
+						continue
+					}
+					if as, ok := cl.Clause.Comm.(*ast.AssignStmt); ok && len(as.Lhs) >= 1 {
+						if lid, ok := unparen(as.Lhs[0]).(*ast.Ident); ok {
+							for _, dv := range dueVars {
+								if objOf(in, lid) == dv && dv != nil {
+									rearm = true
+								}
+							}
+						}
+					}
+				}
+			}
+			c.Check(rearm, f, loop, "cycle loop re-arms from the delivered time", "the time received from the clock's channel is stored into the variable the next due time is computed from (a clock jump over several intervals then yields one firing, not a burst of catch-up firings with no clock advance)", fmt.Sprintf("timer clause assigns the received time to the due-time base: %v", rearm))
 			// done/end cases return
 			for _, si := range chanEngine(p).Selects {
 				if si.Func != f || !regionOf(loop.Body).Contains(si.Stmt) {
